@@ -602,12 +602,22 @@ void alloc_mon_init(alloc_mon *m)
 	m->poison = true;
 }
 
+// (worker threads of the coder under test may be allocating at this very moment: plan changes take the monitor's lock)
 void alloc_mon_reset_plan(alloc_mon *m)
 {
+	am_lock(m);
 	m->fail_at = m->fail_from = 0; m->fail_prob_num = 0; m->fail_rand_after = 0;
+	am_unlock(m);
 }
 
-void alloc_mon_reset_peak(alloc_mon *m) { m->peak_bytes = m->live_bytes; }
+void alloc_mon_fail_nth_from_now(alloc_mon *m, unsigned k)
+{
+	am_lock(m);
+	m->fail_at = (int64_t)m->n_alloc + (int64_t)k;
+	am_unlock(m);
+}
+
+void alloc_mon_reset_peak(alloc_mon *m) { am_lock(m); m->peak_bytes = m->live_bytes; am_unlock(m); }
 
 void alloc_mon_destroy(alloc_mon *m)
 {
